@@ -28,6 +28,8 @@ pub mod ev {
     pub const CHECK_FAIL: u8 = 33;
     pub const PASS_BEGIN: u8 = 34;
     pub const PANIC: u8 = 35;
+    /// a second task ran to completion while the first was suspended inside a seam call
+    pub const NEST: u8 = 36;
     pub fn name(k: u8) -> &'static str {
         match k {
             OUT_WRITE => "out.write",
@@ -50,6 +52,7 @@ pub mod ev {
             CHECK_FAIL => "check.FAIL",
             PASS_BEGIN => "pass.begin",
             PANIC => "unwind",
+            NEST => "nested.task",
             _ => "?",
         }
     }
@@ -90,19 +93,70 @@ impl Log {
 
 // ---------------------------------------------------------------- Output
 
+/// A second, complete task (encode and decode of another value, usually of another layout) that the
+/// simulator runs while the first operation is suspended inside a seam call: cooperative interleaving of
+/// two tasks at the only points where the library hands control to its caller (`Input::read`,
+/// `Output::write`, the closure of `using_encoded`). The library is stateless, so the second task must
+/// not be able to disturb the first, nor the first the second.
+#[derive(Clone, Debug, PartialEq, Eq)]
+pub struct Nest {
+    /// layout of the second task's value
+    pub lay: u16,
+    pub bits: u128,
+    /// index of the seam call (within one record's encode / decode) at which the second task runs
+    pub at: u8,
+    /// run it after the call has been served (bytes delivered / taken) instead of before
+    pub after: bool,
+}
+
+/// The second task itself, supplied by the executor (it needs the dispatch table). Returns a
+/// description of what went wrong inside the second task, if anything did.
+pub type NestHook<'h> = &'h dyn Fn() -> Option<String>;
+
 /// The simulated sink handed to the real `Encode::encode_to`.
 pub struct SimOutput<'l> {
     pub buf: Vec<u8>,
     pub log: &'l mut Log,
+    pub nest: Option<(u8, bool, NestHook<'l>)>,
+    /// seam calls since the record began
+    pub calls: u32,
+    pub nest_fired: u32,
+    pub nest_fail: Option<String>,
+}
+impl<'l> SimOutput<'l> {
+    pub fn new(buf: Vec<u8>, log: &'l mut Log) -> SimOutput<'l> {
+        SimOutput { buf, log, nest: None, calls: 0, nest_fired: 0, nest_fail: None }
+    }
+    #[inline]
+    fn fire(&mut self, after: bool) {
+        if let Some((at, when, hook)) = self.nest {
+            if self.calls == at as u32 && when == after {
+                self.nest_fired += 1;
+                let r = hook();
+                self.log.ev(ev::NEST, self.calls as u64, r.is_some() as u64);
+                if self.nest_fail.is_none() {
+                    self.nest_fail = r;
+                }
+            }
+        }
+    }
 }
 impl<'l> Output for SimOutput<'l> {
     fn write(&mut self, bytes: &[u8]) {
         self.log.ev(ev::OUT_WRITE, bytes.len() as u64, self.buf.len() as u64);
+        // `bytes` may still point into a buffer the library owns (`using_encoded`): the second task
+        // runs before they are copied
+        self.fire(false);
         self.buf.extend_from_slice(bytes);
+        self.fire(true);
+        self.calls += 1;
     }
     fn push_byte(&mut self, byte: u8) {
         self.log.ev(ev::OUT_PUSH, byte as u64, self.buf.len() as u64);
+        self.fire(false);
         self.buf.push(byte);
+        self.fire(true);
+        self.calls += 1;
     }
 }
 
@@ -138,10 +192,12 @@ pub struct InputMode {
     pub native_read_byte: bool,
     /// `Some`: serve every `read` through the real `codec::IoReader` + `read_exact` over `SimRead`.
     pub io: Option<IoPlan>,
+    /// `Some`: a second task runs inside one seam call of every record's encode and decode
+    pub nest: Option<Nest>,
 }
 impl InputMode {
     pub fn plain() -> InputMode {
-        InputMode { rl: RlMode::Exact, native_read_byte: false, io: None }
+        InputMode { rl: RlMode::Exact, native_read_byte: false, io: None, nest: None }
     }
 }
 
@@ -229,6 +285,12 @@ pub struct SimInput<'a> {
     pub refused: bool,
     /// `remaining_len` answered `Err` (RlMode::Err) at least once: the input itself reported a failure.
     pub rl_err_returned: bool,
+    /// the second task (see `Nest`); set by the executor after construction
+    pub hook: Option<NestHook<'a>>,
+    /// `read` / `read_byte` calls since the record began (reset by the executor per record)
+    pub calls: u32,
+    pub nest_fired: u32,
+    pub nest_fail: Option<String>,
     pub log: Log,
 }
 
@@ -246,6 +308,10 @@ impl<'a> SimInput<'a> {
             alloc_bytes: 0,
             refused: false,
             rl_err_returned: false,
+            hook: None,
+            calls: 0,
+            nest_fired: 0,
+            nest_fail: None,
             log: Log::new(record),
         };
         if let Some(plan) = b.mode.io.clone() {
@@ -286,27 +352,20 @@ impl<'a> SimInput<'a> {
         };
         &self.data[self.pos.min(end)..end]
     }
-    pub fn io_stats(&self) -> (u32, u32) {
-        self.io.as_ref().map(|r| (r.short_reads, r.eintrs)).unwrap_or((0, 0))
-    }
-}
-
-impl<'a> Input for SimInput<'a> {
-    fn remaining_len(&mut self) -> Result<Option<usize>, Error> {
-        let d = self.deliverable();
-        self.log.ev(ev::IN_REMAINING, self.mode.rl as u64, d as u64);
-        match self.mode.rl {
-            RlMode::None => Ok(None),
-            RlMode::Exact => Ok(Some(d)),
-            RlMode::Over => Ok(Some(d + 7)),
-            RlMode::Err => {
-                self.rl_err_returned = true;
-                Err("sim: remaining_len unavailable".into())
+    #[inline]
+    fn fire(&mut self, after: bool) {
+        if let (Some(hook), Some(n)) = (self.hook, self.mode.nest.as_ref()) {
+            if self.calls == n.at as u32 && n.after == after {
+                self.nest_fired += 1;
+                let r = hook();
+                self.log.ev(ev::NEST, self.calls as u64, r.is_some() as u64);
+                if self.nest_fail.is_none() {
+                    self.nest_fail = r;
+                }
             }
         }
     }
-
-    fn read(&mut self, into: &mut [u8]) -> Result<(), Error> {
+    fn read_inner(&mut self, into: &mut [u8]) -> Result<(), Error> {
         if let Some(io) = self.io.as_mut() {
             // real codec::IoReader + real std read_exact over the SimRead stub
             let r = IoReader(&mut *io).read(into);
@@ -341,10 +400,41 @@ impl<'a> Input for SimInput<'a> {
         self.pos = end;
         Ok(())
     }
+    pub fn io_stats(&self) -> (u32, u32) {
+        self.io.as_ref().map(|r| (r.short_reads, r.eintrs)).unwrap_or((0, 0))
+    }
+}
+
+impl<'a> Input for SimInput<'a> {
+    fn remaining_len(&mut self) -> Result<Option<usize>, Error> {
+        let d = self.deliverable();
+        self.log.ev(ev::IN_REMAINING, self.mode.rl as u64, d as u64);
+        match self.mode.rl {
+            RlMode::None => Ok(None),
+            RlMode::Exact => Ok(Some(d)),
+            RlMode::Over => Ok(Some(d + 7)),
+            RlMode::Err => {
+                self.rl_err_returned = true;
+                Err("sim: remaining_len unavailable".into())
+            }
+        }
+    }
+
+    fn read(&mut self, into: &mut [u8]) -> Result<(), Error> {
+        self.fire(false);
+        let r = self.read_inner(into);
+        // `into` may be a buffer the library shares between calls: the second task runs while the
+        // delivered bytes sit in it
+        self.fire(true);
+        self.calls += 1;
+        r
+    }
 
     fn read_byte(&mut self) -> Result<u8, Error> {
         if self.mode.native_read_byte && self.io.is_none() {
             self.log.ev(ev::IN_READ_BYTE, 0, self.pos as u64);
+            self.fire(false);
+            self.calls += 1;
             if let Some(e) = self.err_from {
                 if self.pos >= e {
                     self.refused = true;
